@@ -1326,6 +1326,21 @@ def display(e, spec):
         return int_string(v)
     if isinstance(v, Adt) and not v.fields and v.variant:
         return Str(v.variant)
+    if isinstance(v, (VecV, Array)) and kind == 'debug':
+        # `{:?}` of a list: [a, b, c] with each element in its own Debug form
+        parts = [display(e, ('debug', x)) for x in v.items]
+        out = Str('[')
+        for i, p_ in enumerate(parts):
+            out = concat(concat(out, Str(', ')) if i else out, p_)
+        return concat(out, Str(']'))
+    if isinstance(v, Tuple) and kind == 'debug':
+        parts = [display(e, ('debug', x)) for x in v.fields]
+        out = Str('(')
+        for i, p_ in enumerate(parts):
+            out = concat(concat(out, Str(', ')) if i else out, p_)
+        return concat(out, Str(')'))
+    if isinstance(v, bool):
+        return Str('true' if v else 'false')
     raise Unsupported('formatting of %r' % (v,))
 
 
